@@ -75,6 +75,15 @@ CHECKS = {
             '(equality, symmetry, hash consistency, set behaviour), unique_in_order on all sequences up to length 6 over 3 letters and on edge sequences with reversed duplicates; identifier part '
             'repeated in fresh interpreters under three more PYTHONHASHSEED values.',
             'finite domains as listed; self-loop edges excluded'),
+    'C16': (EX, '4/C16', 'exhaustive enumeration of edge subsets vs frequency-collision predicate',
+            'All 2 324 subsets of up to three (thorough: 12 950 of up to four) of the 24 Surface-17 edges: get_mutually_allowed vs the reference predicate (also under reversed gate/qubit order); for every '
+            'subset of pairwise disjoint gates all 17 qubits vs the parking predicate; the sequence generator on fixed edge lists x subgroup sizes (each gate once, only accepted steps, no duplicates).',
+            'finite: all subsets up to the stated size; independent device model mc/ref/freq.py'),
+    'C17': (EX, '4/C17', 'exhaustive enumeration of layout tables, involved-qubit subsets and exclusions',
+            'Surface-17 tables against an independent device model (qubits, edges, neighbours, parity groups, frequency groups, feedlines); every layer of the three shipped repetition layouts; '
+            'RepetitionCodeDescription.from_connectivity for all subsets up to size 4 (thorough: all subsets) of the gate-taking qubits of each layout, all orderings of small subsets; composite '
+            'descriptions with every single and pair of excluded edges / qubits, with and without only-required parking.',
+            'finite: shipped tables and the stated subsets; reference device model mc/ref/freq.py'),
 }
 
 
